@@ -170,6 +170,7 @@ template <class T> static void depth (const Fr& F)
                 record (std::string ("roundtrip_(|dz|-1)/(eps*zdiff*(f+n)/(f-n)):") + tn<T> (), (double) ((dz - 1) / (eps * (L) zdiffL * kappa)));
                 ++hits[std::string ("R:depth_roundtrip:") + tn<T> ()];
                 if (dz <= 1) ++hits[std::string ("R:depth_roundtrip_within_1:") + tn<T> ()];
+                if (allow < 2) ++hits[std::string ("R:depth_roundtrip_judged_strictly(allowance<1,|dz|<=1_required):") + tn<T> ()];
                 if (!(dz <= allow))
                     fail (std::string ("depth_roundtrip:") + (F.ortho ? "ortho" : "persp") + ":" + tn<T> (),
                           show (fr) + " z=" + std::to_string (z) + " back=" + std::to_string (zReal) + " zmax=" + std::to_string (zmax));
@@ -222,9 +223,20 @@ template <class T> static void planesM (const Fr& F, int k)
     L      size    = std::min ({(L) std::fabs (F.n), (L) std::fabs (F.r - F.l), (L) std::fabs (F.t - F.b)});
     double trScale = s * (double) size * std::pow (10.0, U (-1, 1));
     Matrix44<T> M  = rigid<T> (s, trScale, false);
-    Plane3<T> real[6], model[6], local[6];
+    Plane3<T> real[6], model[6], local[6], mixed[6];
     fr.planes (real, M);
     c16_planesM (fr, model, M, -1);
+    c16_planesM<T, double> (fr, mixed, M, -1); // the same transcript with the far-corner scale in double, as the source writes it
+    for (int i = 0; i < 6; ++i)
+    {
+        ++hits[std::string ("H:planesM:cast-faithful:") + tn<T> ()];
+        if (!(sameBits (real[i].normal.x, mixed[i].normal.x) && sameBits (real[i].normal.y, mixed[i].normal.y) &&
+              sameBits (real[i].normal.z, mixed[i].normal.z) && sameBits (real[i].distance, mixed[i].distance)))
+            fail (std::string ("H:planesM:cast-faithful:") + tn<T> () + ":plane" + std::to_string (i), show (fr));
+        if (sizeof (T) == 4 && !(sameBits (model[i].normal.x, mixed[i].normal.x) && sameBits (model[i].normal.y, mixed[i].normal.y) &&
+                                 sameBits (model[i].normal.z, mixed[i].normal.z) && sameBits (model[i].distance, mixed[i].distance)))
+            ++hits["info:planesM:float:double-scale_changes_the_bits"];
+    }
     fr.planes (local);
     L eps = std::numeric_limits<T>::epsilon ();
     for (int i = 0; i < 6; ++i)
@@ -787,6 +799,7 @@ static int specMain (unsigned long seed)
 //     ZToDepth (z) = depth of normalised value (z' - zmin) / (zmax - zmin),  z' = z for z <= zmax + 1, else z - (zmax - zmin);
 //     perspective depth of normalised value u: -2 f n / ((f + n) - (2 u - 1) (f - n));  orthographic: -(n + u (f - n)).
 //     Failure keys: ZToDepth:zrange-lt-2^31 / ZToDepth:zrange-ge-2^31 (width of zmax - zmin), ZToDepth:wrap for z > zmax + 1.
+static int zNumFrusta = 16, zNumDepths = 4;
 static long zFails = 0, zEvals = 0, zJudged = 0, zWideJudged = 0, zWrapJudged = 0, zTail = 0;
 static std::map<std::string, int> zKeys;
 static void zfail (const std::string& key, const std::string& detail)
@@ -837,7 +850,7 @@ template <class T> static void zmodelOne (const Fr& F, const std::vector<ZCase>&
         }
         // DepthToZ: operand of the cast (transcript Zp, proved = the real body's by depthToZp_*_real_body), for the Lean tail
         T depths[4] = {dReal, T (-0.5 * F.n), T (-2.0 * F.f), T (-(F.n + F.f) / 2)};
-        for (int j = 0; j < 4; ++j)
+        for (int j = 0; j < zNumDepths; ++j)
         {
             T d = depths[j];
             if (!(d == d) || d == T (0)) continue;
@@ -859,7 +872,7 @@ static int zmodelMain (unsigned long seed, const char* path)
     while (fscanf (fp, "%ld %ld %ld %ld %ld %ld", &c.z, &c.zmin, &c.zmax, &c.zw, &c.zdInt, &c.zdLong) == 6) cases.push_back (c);
     fclose (fp);
     rng.seed (seed * 40503ul + 77);
-    for (int k = 0; k < 16; ++k)
+    for (int k = 0; k < zNumFrusta; ++k)
     {
         Fr F = genFrustum (k);
         if (k < 4) { F.n = 1; F.f = (double[]){2, 3, 1000, 17}[k]; F.l = -1; F.r = 1; F.b = -1; F.t = 1; F.ortho = k % 2; }
@@ -936,7 +949,12 @@ int main (int argc, char** argv)
 {
     if (argc > 1 && !strcmp (argv[1], "spec")) return specMain (argc > 2 ? strtoul (argv[2], 0, 10) : 1);
     if (argc > 1 && !strcmp (argv[1], "ftlattice")) return ftLatticeMain (argc > 2 ? strtoul (argv[2], 0, 10) : 1);
-    if (argc > 3 && !strcmp (argv[1], "zmodel")) return zmodelMain (strtoul (argv[2], 0, 10), argv[3]);
+    if (argc > 3 && !strcmp (argv[1], "zmodel"))
+    {
+        if (argc > 4) zNumFrusta = atoi (argv[4]);
+        if (argc > 5) zNumDepths = atoi (argv[5]);
+        return zmodelMain (strtoul (argv[2], 0, 10), argv[3]);
+    }
     unsigned long seed = argc > 1 ? strtoul (argv[1], 0, 10) : 1;
     int           n    = argc > 2 ? atoi (argv[2]) : 200;
     rng.seed (seed * 2654435761ul + 16);
@@ -952,8 +970,9 @@ int main (int argc, char** argv)
     }
     overflowProbe ();
     long evals = 0;
-    for (auto& kv : hits) if (kv.first.find ("ambiguous") == std::string::npos && kv.first.find ("info:") != 0 && kv.first.find ("touching") == std::string::npos && kv.first.find ("poking") == std::string::npos && kv.first.find ("within_1") == std::string::npos && kv.first.find ("cull:camera") != 0 &&
+    for (auto& kv : hits) if (kv.first.find ("ambiguous") == std::string::npos && kv.first.find ("info:") != 0 && kv.first.find ("touching") == std::string::npos && kv.first.find ("poking") == std::string::npos && kv.first.find ("within_1") == std::string::npos && kv.first.find ("judged_strictly") == std::string::npos && kv.first.find ("cull:camera") != 0 &&
                               !(kv.first.find ("mirrored_M:") == 0 && kv.first.find ("judged") == std::string::npos)) evals += kv.second;
+    printf ("C16MARGINSCALE %s\n", getenv ("C16_MARGIN_SCALE") ? getenv ("C16_MARGIN_SCALE") : "1");
     printf ("C16CORR evals=%ld failures=%ld\n", evals, failures);
     for (auto& kv : hits) printf ("C16HIT %s %ld\n", kv.first.c_str (), kv.second);
     for (auto& kv : worst) printf ("C16MAX %s %.4g\n", kv.first.c_str (), kv.second);
